@@ -1004,7 +1004,7 @@ DEC_RELEVANT = {
 DEC_MODULE = "CvssVerif.Props.SrcDec"
 DEC_THEOREMS = ["v3_functions_are_source", "v2_functions_are_source", "constructors_are_source", "nil_receivers_are_source", "accessors_are_source",
                 "no_index_panic", "v3_accepts_iff_source", "v2_accepts_iff_source", "v3_errors_sound_source", "v2_errors_sound_source",
-                "encode_of_accepted_source", "decode_source_iff", "v3_fields_source", "names_abstraction_ok"]
+                "encode_of_accepted_source", "decode_source_iff", "v3_fields_source", "names_abstraction_ok", "sentinels_are_distinct_values"]
 _DEC_CACHE = {}
 ALL_MODULE = "CvssVerif.Props.SrcAll"
 ALL_THEOREMS = ["v3_string_to_scores_source", "v2_string_to_scores_source", "primitives_are_source"]
